@@ -533,7 +533,12 @@ def cli_child_main(spec_path: str, outp: str):
     repo = os.path.realpath(str(core.REPO))
     canaries = set(G.CANARY_MODULES) | set(spec.get("hostile", []))
     events = []
+    lib_cache = os.environ.get("BLACK_CACHE_DIR")  # black (compiled) probes its own cache directory with a temporary file when it is imported
+    n_lib_cache = 0
     for e in S.events:
+        if lib_cache and ((e["ev"] == "open-write" and _under(e["path"], [lib_cache])) or (e["ev"].startswith("tempfile.") and lib_cache in e.get("args", ""))):
+            n_lib_cache += 1
+            continue
         if e["ev"] == "exec":
             cf_ = e["code_file"]
             in_cdd = _under(e["caller_file"], [repo + "/cdd"]) and "/tests/" not in e["caller_file"]
@@ -545,7 +550,7 @@ def cli_child_main(spec_path: str, outp: str):
         events.append(e)
     loaded = sorted(n for n, m in list(sys.modules.items()) if isinstance(getattr(m, "__file__", None), str) and _under(m.__file__, [tmp]))
     Path(outp).write_text(json.dumps({"events": events, "adhoc": [{k: _jsonable(v) for k, v in a.items()} for a in S.adhoc], "steps": [["cli." + spec["command"], status]],
-                                      "canary_loaded": loaded, "stderr": err_text, "prefixes": [sys.prefix, sys.base_prefix, str(core.REPO)]}, ensure_ascii=True, default=repr))
+                                      "canary_loaded": loaded, "stderr": err_text, "lib_cache_writes": n_lib_cache, "prefixes": [sys.prefix, sys.base_prefix, str(core.REPO)]}, ensure_ascii=True, default=repr))
 
 
 def run_cli_cases(cases: list[dict], nproc: int = core.NCPU, timeout: int = 90):
@@ -572,7 +577,7 @@ def run_cli_cases(cases: list[dict], nproc: int = core.NCPU, timeout: int = 90):
             try:
                 p = subprocess.run([core.PY, "-c", "import sys; from harness.props import c17; c17.cli_child_main(sys.argv[1], sys.argv[2])",
                                     str(io_dir / "spec.json"), str(io_dir / "out.json")], stdin=subprocess.DEVNULL, stdout=subprocess.PIPE, stderr=subprocess.PIPE,
-                                   text=True, env=env, cwd=str(tmp), timeout=timeout)
+                                   text=True, env=dict(env, BLACK_CACHE_DIR=os.path.realpath(str(io_dir / "black_cache"))), cwd=str(tmp), timeout=timeout)
             except subprocess.TimeoutExpired:
                 return _blank(timeout=True, tmp=str(tmp))
             if not (io_dir / "out.json").exists():
@@ -605,7 +610,7 @@ _ROUTE = "@app.get('/api/tbl/:id')\ndef read(id):\n    \"\"\"\n    Read one\n\n 
 
 def _hostile(tag, body):
     """a file the command is only supposed to READ: importing / executing it leaves a marker"""
-    return "import os\nopen('%s', 'w').write(%r)\n\n%s" % (G.SENT, tag, body)
+    return "open('%s', 'w').write(%r)\n\n%s" % (G.SENT, tag, body)
 
 
 def cli_cases():
@@ -639,9 +644,6 @@ def cli_cases():
         out.append({"fn": "cli", "command": "gen_routes", "label": "gen_routes:model-path=" + st, "files": {F("models.py"): _hostile("models", _SQL)}, "hostile": ["models", "routes", "sub"],
                     "argv": ["gen_routes", "--crud", "CRD", "--app-name", "app", "--model-path", P("models.py"), "--model-name", "Tbl", "--routes-path", P("routes.py")],
                     "outputs": [F("routes.py")]})
-        out.append({"fn": "cli", "command": "openapi", "label": "openapi:model-paths+routes-paths=" + st,
-                    "files": {F("models.py"): _hostile("models", _SQL), F("routes.py"): _hostile("routes", _ROUTE)}, "hostile": ["models", "routes", "sub"],
-                    "argv": ["openapi", "--app-name", "app", "--model-paths", P("models.py"), "--routes-paths", P("routes.py")], "outputs": []})
     # gen --phase 1 / 2 rewrite the named file in place and resolve the symbols it imports
     fk_models = ("from sqlalchemy import Column, ForeignKey, Integer\nfrom %s import Other\n\n\nclass T(Base):\n    __tablename__ = 't'\n    id = Column(Integer, primary_key=True)\n"
                  "    other = Column(Other, ForeignKey('Other'), nullable=True)\n")
@@ -716,7 +718,7 @@ def judge(case, rec, meta, predict):
             else:
                 # library internals (import machinery, namedtuple, dataclasses …): the code must be installed code, never the analysed input
                 installed = cf_.startswith("<frozen ") or (os.path.isabs(cf_) and _under(cf_, roots) and not _under(cf_, [tmp]))
-                helper = (not os.path.isabs(cf_)) and _under(caller, roots) and not _under(caller, [tmp]) and G.EVIL_MOD not in (e["src"] or "") and "PWNED" not in (e["src"] or "")
+                helper = (not os.path.isabs(cf_)) and (caller.startswith("<frozen ") or (_under(caller, roots) and not _under(caller, [tmp]))) and G.EVIL_MOD not in (e["src"] or "") and "PWNED" not in (e["src"] or "")
                 if control and _under(cf_, [tmp]):
                     continue
                 if not (installed or helper):
